@@ -516,6 +516,39 @@ func (nr *netRun) checkC04(x *xfer) {
 			r.Probe("refused-despite-validation")
 		}
 	}
+	// a rejecting validation update fails the channel and closes its transport channel
+	for _, op := range nr.ops {
+		if op.X != x || op.Kind != "UpdateValidationStatus" || op.Res.Accepted || !op.Call.Returned || op.Life != b.life {
+			continue
+		}
+		if op.Call.Err != nil {
+			continue // e.g. the channel had already ended
+		}
+		r.Probe("revalidation-rejected")
+		if s, ok := b.State(x.chid); ok && s.Status != datatransfer.Failed {
+			// unless it had already ended otherwise
+			other := false
+			for _, e := range b.EventsOf(x.chid) {
+				if (isTerminal(e.Snap.Status) || isCleanup(e.Snap.Status)) && terminalOf(e.Snap.Status) != datatransfer.Failed && e.Step <= op.Call.S1 {
+					other = true
+				}
+			}
+			if !other {
+				r.Failf("C04", "rejected-revalidation-not-failed", datatransfer.Statuses[s.Status], "the responder's application rejected the revalidation of channel #%d but the channel is %s", x.idx, datatransfer.Statuses[s.Status])
+			}
+		}
+		if op.HadActiveGS {
+			closed := false
+			for _, g := range b.AllGSCalls {
+				if g.Kind == "cancel" && g.Step >= op.Call.S0 {
+					closed = true
+				}
+			}
+			if !closed && b.GS.ActiveFor(x.chid.ID) {
+				r.Failf("C04", "rejected-revalidation-transport-not-closed", "", "the responder's application rejected the revalidation of channel #%d (graphsync request alive at the time) but the transport channel was never closed: %s", x.idx, b.GS.DescribeFor(x.chid.ID))
+			}
+		}
+	}
 	// the channel exists on the responder only if some validation accepted it
 	if _, ok := b.State(x.chid); ok {
 		acc := false
